@@ -44,7 +44,7 @@ def eventcrypto__VerifyEventSignatures : List String := [
   "}",
   "}",
   "if e.Type() == spec.MRoomMember {",
-  "membership, err := e.Membership()",
+  "membership, err := membershipForSignatures(e)",
   "if err != nil {",
   "return fmt.Errorf(\"failed to get membership of membership event: %w\", err)",
   "}",
@@ -52,6 +52,9 @@ def eventcrypto__VerifyEventSignatures : List String := [
   "mapping, err := getMXIDMapping(e)",
   "if err != nil {",
   "return err",
+  "}",
+  "if mapping.UserRoomKey != e.SenderID() {",
+  "return fmt.Errorf(\"mxid_mapping is for %q, not for the sender %q\", mapping.UserRoomKey, e.SenderID())",
   "}",
   "err = validateMXIDMappingSignatures(ctx, e, *mapping, verifier, verImpl)",
   "if err != nil {",
@@ -167,13 +170,21 @@ def eventcrypto__emptyAuthorisedViaServerName : List String := [
 
 def eventcrypto__extractAuthorisedViaServerName : List String := [
   "func func(content []byte) (spec.ServerName, error)",
-  "if v := gjson.GetBytes(content, \"join_authorised_via_users_server\"); v.Exists() {",
-  "_, serverName, err := SplitID('@', v.String())",
+  "var members map[string]json.RawMessage",
+  "if err := json.Unmarshal(content, &members); err != nil {",
+  "return \"\", fmt.Errorf(\"failed to read member content: %w\", err)",
+  "}",
+  "if v, ok := members[\"join_authorised_via_users_server\"]; ok {",
+  "var userID string",
+  "if err := json.Unmarshal(v, &userID); err != nil {",
+  "return \"\", fmt.Errorf(\"failed to read authorised user: %w\", err)",
+  "}",
+  "_, serverName, err := SplitID('@', userID)",
   "if err != nil {",
   "return \"\", fmt.Errorf(\"failed to split authorised server: %w\", err)",
   "}",
   "if serverName == \"\" {",
-  "return \"\", fmt.Errorf(\"authorised user %q has no server name\", v.String())",
+  "return \"\", fmt.Errorf(\"authorised user %q has no server name\", userID)",
   "}",
   "return serverName, nil",
   "}",
@@ -183,7 +194,11 @@ def eventcrypto__extractAuthorisedViaServerName : List String := [
 def eventcrypto__getMXIDMapping : List String := [
   "func func(e PDU) (*MXIDMapping, error)",
   "var content MemberContent",
-  "err := json.Unmarshal(e.Content(), &content)",
+  "exact, err := exactFieldsOnly(e.Content(), &content)",
+  "if err != nil {",
+  "return nil, err",
+  "}",
+  "err = json.Unmarshal(exact, &content)",
   "if err != nil {",
   "return nil, err",
   "}",
@@ -191,6 +206,22 @@ def eventcrypto__getMXIDMapping : List String := [
   "return nil, fmt.Errorf(\"missing mxid_mapping\")",
   "}",
   "return content.MXIDMapping, nil"
+]
+
+def eventcrypto__membershipForSignatures : List String := [
+  "func func(e PDU) (string, error)",
+  "var content struct { Membership string `json:\"membership\"` }",
+  "exact, err := exactFieldsOnly(e.Content(), &content)",
+  "if err != nil {",
+  "return \"\", err",
+  "}",
+  "if err = json.Unmarshal(exact, &content); err != nil {",
+  "return \"\", err",
+  "}",
+  "if e.StateKey() == nil {",
+  "return \"\", fmt.Errorf(\"gomatrixserverlib: not a m.room.member event, missing state key\")",
+  "}",
+  "return content.Membership, nil"
 ]
 
 def eventcrypto__referenceOfEvent : List String := [
@@ -633,11 +664,11 @@ def keyring__StrictValiditySignatureCheck : List String := [
   "return false",
   "}",
   "sevenDaysFuture := time.Now().Add(time.Hour * 24 * 7)",
-  "validUntilTS := validUntil.Time()",
-  "if validUntilTS.After(sevenDaysFuture) {",
-  "validUntilTS = sevenDaysFuture",
+  "validUntilTS := validUntil",
+  "if sevenDaysFutureTS := spec.AsTimestamp(sevenDaysFuture); validUntilTS > sevenDaysFutureTS {",
+  "validUntilTS = sevenDaysFutureTS",
   "}",
-  "if atTs.Time().After(validUntilTS) {",
+  "if atTs > validUntilTS {",
   "return false",
   "}",
   "return true"
@@ -670,7 +701,7 @@ def keys_ServerKeys_PublicKey : List String := [
   "if currentKey, ok := keys.VerifyKeys[keyID]; ok && (atTS <= keys.ValidUntilTS) {",
   "return currentKey.Key",
   "}",
-  "if oldKey, ok := keys.OldVerifyKeys[keyID]; ok && (atTS <= oldKey.ExpiredTS) {",
+  "if oldKey, ok := keys.OldVerifyKeys[keyID]; ok && (atTS < oldKey.ExpiredTS) {",
   "return oldKey.Key",
   "}",
   "return nil"
@@ -821,6 +852,6 @@ def redactevent_unredactableEventFieldsV2_SetContent : List String := [
   "u.Content = content"
 ]
 
-def functions : List String := ["eventcrypto.go:.VerifyAllEventSignatures", "eventcrypto.go:.VerifyEventSignatures", "eventcrypto.go:.addContentHashesToEvent", "eventcrypto.go:.checkEventContentHash", "eventcrypto.go:.emptyAuthorisedViaServerName", "eventcrypto.go:.extractAuthorisedViaServerName", "eventcrypto.go:.getMXIDMapping", "eventcrypto.go:.referenceOfEvent", "eventcrypto.go:.referenceOfEventForVersion", "eventcrypto.go:.signEvent", "eventcrypto.go:.validateMXIDMappingSignatures", "keyring.go:DirectKeyFetcher.FetchKeys", "keyring.go:DirectKeyFetcher.FetcherName", "keyring.go:DirectKeyFetcher.fetchKeysForServer", "keyring.go:DirectKeyFetcher.fetchNotaryKeysForServer", "keyring.go:JSONVerifierSelf.VerifyJSONs", "keyring.go:KeyRing.VerifyJSONs", "keyring.go:KeyRing.checkUsingKeys", "keyring.go:KeyRing.isAlgorithmSupported", "keyring.go:KeyRing.publicKeyRequests", "keyring.go:PerspectiveKeyFetcher.FetchKeys", "keyring.go:PerspectiveKeyFetcher.FetcherName", "keyring.go:PublicKeyLookupRequest.MarshalText", "keyring.go:PublicKeyLookupRequest.UnmarshalText", "keyring.go:PublicKeyLookupResult.WasValidAt", "keyring.go:.NoStrictValidityCheck", "keyring.go:.StrictValiditySignatureCheck", "keyring.go:.mapServerKeysToPublicKeyLookupResult", "keys.go:ServerKeys.MarshalJSON", "keys.go:ServerKeys.PublicKey", "keys.go:ServerKeys.UnmarshalJSON", "keys.go:.CheckKeys", "keys.go:.checkVerifyKeys", "redactevent.go:.exactFieldsOnly", "redactevent.go:.redactEventJSON", "redactevent.go:.redactEventJSONV1", "redactevent.go:.redactEventJSONV2", "redactevent.go:.redactEventJSONV3", "redactevent.go:.redactEventJSONV4", "redactevent.go:.redactEventJSONV5", "redactevent.go:unredactableEventFieldsV1.GetContent", "redactevent.go:unredactableEventFieldsV1.GetType", "redactevent.go:unredactableEventFieldsV1.SetContent", "redactevent.go:unredactableEventFieldsV2.GetContent", "redactevent.go:unredactableEventFieldsV2.GetType", "redactevent.go:unredactableEventFieldsV2.SetContent"]
+def functions : List String := ["eventcrypto.go:.VerifyAllEventSignatures", "eventcrypto.go:.VerifyEventSignatures", "eventcrypto.go:.addContentHashesToEvent", "eventcrypto.go:.checkEventContentHash", "eventcrypto.go:.emptyAuthorisedViaServerName", "eventcrypto.go:.extractAuthorisedViaServerName", "eventcrypto.go:.getMXIDMapping", "eventcrypto.go:.membershipForSignatures", "eventcrypto.go:.referenceOfEvent", "eventcrypto.go:.referenceOfEventForVersion", "eventcrypto.go:.signEvent", "eventcrypto.go:.validateMXIDMappingSignatures", "keyring.go:DirectKeyFetcher.FetchKeys", "keyring.go:DirectKeyFetcher.FetcherName", "keyring.go:DirectKeyFetcher.fetchKeysForServer", "keyring.go:DirectKeyFetcher.fetchNotaryKeysForServer", "keyring.go:JSONVerifierSelf.VerifyJSONs", "keyring.go:KeyRing.VerifyJSONs", "keyring.go:KeyRing.checkUsingKeys", "keyring.go:KeyRing.isAlgorithmSupported", "keyring.go:KeyRing.publicKeyRequests", "keyring.go:PerspectiveKeyFetcher.FetchKeys", "keyring.go:PerspectiveKeyFetcher.FetcherName", "keyring.go:PublicKeyLookupRequest.MarshalText", "keyring.go:PublicKeyLookupRequest.UnmarshalText", "keyring.go:PublicKeyLookupResult.WasValidAt", "keyring.go:.NoStrictValidityCheck", "keyring.go:.StrictValiditySignatureCheck", "keyring.go:.mapServerKeysToPublicKeyLookupResult", "keys.go:ServerKeys.MarshalJSON", "keys.go:ServerKeys.PublicKey", "keys.go:ServerKeys.UnmarshalJSON", "keys.go:.CheckKeys", "keys.go:.checkVerifyKeys", "redactevent.go:.exactFieldsOnly", "redactevent.go:.redactEventJSON", "redactevent.go:.redactEventJSONV1", "redactevent.go:.redactEventJSONV2", "redactevent.go:.redactEventJSONV3", "redactevent.go:.redactEventJSONV4", "redactevent.go:.redactEventJSONV5", "redactevent.go:unredactableEventFieldsV1.GetContent", "redactevent.go:unredactableEventFieldsV1.GetType", "redactevent.go:unredactableEventFieldsV1.SetContent", "redactevent.go:unredactableEventFieldsV2.GetContent", "redactevent.go:unredactableEventFieldsV2.GetType", "redactevent.go:unredactableEventFieldsV2.SetContent"]
 
 end VPins.C06
